@@ -29,7 +29,7 @@ REQUIRED_COUNTERS = ['with_metadata', 'leading_blank_value', 'multi_key_metadata
 INDENTS = [None, -1, 0, 1, 2, 3, 7, 40]
 OPTS = [(i, c) for i in INDENTS for c in (False, True)]
 WEIRD = ['\xa0', '\x85', '\x0b', '\x0c', '\x1c', '\u2028', '\u2029', '\u3000', ';', '(', ')', '"', '#',
-         ':', '~', ' ', '\xe9', '\t', '/', '\\']
+         ':', '~', ' ', '\xe9', '\t', '/', '\\', '\ufeff', '\u200b']
 
 
 def cases(ctx):
@@ -55,6 +55,9 @@ def cases(ctx):
 
 def rand_meta(rng):
     m = {}
+    if rng.random() < 0.4:
+        # many texts share their first metadata line (and differ in the following ones)
+        m['id'] = str(rng.randrange(3))
     for _ in range(rng.randrange(0, 5)):
         key = ''.join(rng.choice('abcXYZ-_:1\xe9#(') for _ in range(rng.randrange(1, 5)))
         if key.startswith(':') or '::' in key:
